@@ -1,8 +1,30 @@
 import Driver.Util
 import Driver.Ring
+import Driver.Codec
+import Driver.DateTime
+import Driver.Uri
+import Driver.HashTable
+import Driver.Xml
+import Driver.ThreadSched
+import Driver.HostUtils
+import Driver.Cbor
+import Driver.Lht
+import Driver.MemTrace
+import Driver.Seqs
 /-! One line per component driver. -/
 namespace Driver
 def registry : List (String × Component) := [
-  ("ring", RingD.component)
+  ("ring", RingD.component),
+  ("codec", CodecD.component),
+  ("datetime", DateTimeD.component),
+  ("uri", UriD.component),
+  ("hashtable", HashTableD.component),
+  ("xml", XmlD.component),
+  ("tsched", ThreadSchedD.component),
+  ("hostutils", HostUtilsD.component),
+  ("cbor", CborD.component),
+  ("lht", LhtD.component),
+  ("memtrace", MemTraceD.component),
+  ("seqs", SeqsD.component)
 ]
 end Driver
